@@ -1,6 +1,6 @@
 (** C10 — changing representation loses nothing: the obligations, written out in full. *)
 From Coq Require Import List NArith ZArith String.
-From SK Require Import lib.LGraph lib.StrJoin model.C10_Model model.C10_Text model.C10_Rxn proof.C10_Rxn proof.C10_ImpH proof.C10_HRoundIts proof.C10_GmlEHFull proof.C10_ReindexEHFull proof.C10_Renumber proof.C10_Text proof.C10_Proof proof.C10_Hydrogen proof.C10_Routes proof.C10_GmlWrite proof.C10_HRound proof.C10_Routes2 proof.C10_Reindex proof.C10_MolGraph proof.C10_Smart proof.C10_GmlEH proof.C10_Select proof.C10_MolOk proof.C10_Full proof.C10_Attrs proof.C10_Light proof.C10_ReindexEH.
+From SK Require Import lib.LGraph lib.StrJoin model.C10_Model model.C10_Text model.C10_Rxn model.C10_Dfs proof.C10_Dfs proof.C10_Rxn proof.C10_ImpH proof.C10_HRoundIts proof.C10_GmlEHFull proof.C10_ReindexEHFull proof.C10_Renumber proof.C10_Text proof.C10_Proof proof.C10_Hydrogen proof.C10_Routes proof.C10_GmlWrite proof.C10_HRound proof.C10_Routes2 proof.C10_Reindex proof.C10_MolGraph proof.C10_Smart proof.C10_GmlEH proof.C10_Select proof.C10_MolOk proof.C10_Full proof.C10_Attrs proof.C10_Light proof.C10_ReindexEH.
 Import ListNotations.
 Local Open Scope Z_scope.
 
@@ -656,3 +656,18 @@ Theorem C10_partial_mapping_id_collision_refuted :
     List.length (gnodes (mol_to_graph m false false)) = 2%nat /\ graph_to_mol (mol_to_graph m false false) <> None.
 Proof. exact partial_mapping_id_collision_refuted. Qed.
 Print Assumptions C10_partial_mapping_id_collision_refuted.
+
+(** DFS-STYLE ANNOTATED SMILES ("[H]1", map number after the bracket) <-> SMILES WITH ATOM MAPS ("[H:1]"): the string rewriting at
+    the bottom of chem_converter.py (dfs_to_smiles / smiles_to_dfs: str.replace + re.sub, modelled on code-point lists in
+    model/C10_Dfs.v and compared on every run).  For every token string — bracket atoms "[inner]digits" whose content has no
+    bracket and no colon and is not the wildcard, whose map number is followed by a non-digit, and any other characters except
+    "[" in between — that contains neither "[]" nor "[*]": dfs_to_smiles moves every map number into its bracket, smiles_to_dfs
+    moves it out again, and DFS -> SMILES -> DFS is the identity.  (Outside the domain it is not: "[C:1]5" comes back as "[C]15",
+    proof/C10_Dfs.v dfs_roundtrip_needs_stop.) *)
+Theorem C10_dfs_roundtrip :
+  forall l : list dtok, toks_ok l = true ->
+    contains s_empty_br (render_toks l) = false -> contains s_star_br (render_toks l) = false ->
+    dfs_to_smiles (render_toks l) true = render_mapped l /\ smiles_to_dfs (render_mapped l) = render_toks l /\
+    smiles_to_dfs (dfs_to_smiles (render_toks l) true) = render_toks l.
+Proof. exact dfs_roundtrip. Qed.
+Print Assumptions C10_dfs_roundtrip.
